@@ -1,6 +1,6 @@
 /- C08: characterisations of the two small scanners the strict reader shares with the model inside `Spec.chunks`:
    `findCrlf` (first CRLF) and `parseHex` (the chunk-size line). -/
-import TornadoModel.C08.Model
+import TornadoModel.C08.Seg
 namespace TornadoModel.C08
 
 /-- `loc` is the position of the first CR LF pair of `b` -/
@@ -153,5 +153,70 @@ example : parseHex ("+5".toList.map Char.toNat) = none ∧ parseHex ("0x5".toLis
     parseHex ("5_0".toList.map Char.toNat) = none ∧ parseHex (" 5".toList.map Char.toNat) = none ∧ parseHex [] = none := by
   decide
 example : findCrlf [65, 13, 13, 10, 13, 10] = some 2 := by decide
+
+/-! ### the end of the header block: leftmost match of `\r?\n\r?\n` -/
+
+/-- the four strings `\r?\n\r?\n` matches -/
+def headTerms : List Bytes := [[13, 10, 13, 10], [13, 10, 10], [10, 13, 10], [10, 10]]
+
+/-- `headHere` (the anchored match) succeeds exactly when one of the four terminators is a prefix, and returns its length -/
+theorem headHere_iff (b : Bytes) (n : Nat) :
+    headHere b = some n ↔ ∃ t ∈ headTerms, t <+: b ∧ n = t.length := by
+  constructor
+  · intro h
+    unfold headHere at h
+    split at h
+    · cases h; exact ⟨[13, 10, 13, 10], by simp [headTerms], by simp, rfl⟩
+    · cases h; exact ⟨[13, 10, 10], by simp [headTerms], by simp, rfl⟩
+    · cases h; exact ⟨[10, 13, 10], by simp [headTerms], by simp, rfl⟩
+    · cases h; exact ⟨[10, 10], by simp [headTerms], by simp, rfl⟩
+    · cases h
+  · rintro ⟨t, ht, ⟨r, rfl⟩, rfl⟩
+    simp only [headTerms, List.mem_cons, List.not_mem_nil, or_false] at ht
+    rcases ht with rfl | rfl | rfl | rfl <;> simp [headHere]
+
+/-- **findHeadEnd_iff**: `findHeadEnd` returns the end offset of the leftmost position at which `\r?\n\r?\n` matches -/
+theorem findHeadEnd_iff : ∀ (b : Bytes) (e : Nat), findHeadEnd b = some e ↔
+    ∃ i n, headHere (b.drop i) = some n ∧ e = i + n ∧ ∀ j, j < i → headHere (b.drop j) = none
+  | [], e => by
+    simp [findHeadEnd, headHere]
+  | c :: cs, e => by
+    have ih := findHeadEnd_iff cs
+    rw [findHeadEnd_cons]
+    cases hh : headHere (c :: cs) with
+    | some n =>
+      simp only [Option.some.injEq]
+      constructor
+      · intro h; subst h; exact ⟨0, n, by simpa using hh, by omega, fun j hj => by omega⟩
+      · rintro ⟨i, n', h1, h2, h3⟩
+        cases i with
+        | zero => simp only [List.drop_zero] at h1; rw [hh] at h1; cases h1; omega
+        | succ k => have := h3 0 (by omega); simp only [List.drop_zero] at this; rw [hh] at this; cases this
+    | none =>
+      simp only
+      constructor
+      · intro h
+        cases hf : findHeadEnd cs with
+        | none => rw [hf] at h; cases h
+        | some e' =>
+          rw [hf] at h
+          simp only [Option.map_some, Option.some.injEq] at h
+          obtain ⟨i, n, h1, h2, h3⟩ := (ih e').mp hf
+          refine ⟨i + 1, n, by simpa using h1, by omega, ?_⟩
+          intro j hj
+          cases j with
+          | zero => simpa using hh
+          | succ j' => simpa using h3 j' (by omega)
+      · rintro ⟨i, n, h1, h2, h3⟩
+        cases i with
+        | zero => simp only [List.drop_zero] at h1; rw [hh] at h1; cases h1
+        | succ k =>
+          have : findHeadEnd cs = some (k + n) :=
+            (ih (k + n)).mpr ⟨k, n, by simpa using h1, rfl, fun j hj => by simpa using h3 (j + 1) (by omega)⟩
+          rw [this]
+          simp only [Option.map_some, Option.some.injEq]
+          omega
+
+example : findHeadEnd ("HTTP/1.1 200 OK\r\nA: b\n\r\nxyz\r\n\r\n".toList.map Char.toNat) = some 24 := by decide
 
 end TornadoModel.C08
